@@ -4,7 +4,10 @@ Real App.Close over generated closer sets (0-50 closers, failing subsets, blocki
 ZERO-SIZE types, which all share one address, and struct-plus-its-first-field pairs, which share one too, mixed with
 ordinary ones); Close is invoked after Run returned, or WHILE Run is still inside callRunners (an ApplicationRunner that
 serves until a closer's Close / the driver releases it; a server component that is runner and closer at once), or BY an
-ApplicationRunner from inside its Run(); every run yields a sequenced event history that must be accepted by the model's trace acceptor (Conc.close_accepts, which replays it
+ApplicationRunner from inside its Run(), or SEVERAL TIMES, the calls overlapping (mode "overlap": 2-3 calls of App.Close on one
+App, every later one issued while a gate closer of the earlier ones is still blocked inside its Close(); every call has to
+invoke every closer once itself and to wait for its own invocations; model: Model/ConcMulti.v, independent instances of the
+Close phase; acceptor multi_accepts = an interleaving of accepted single-call histories); every run yields a sequenced event history that must be accepted by the model's trace acceptor (Conc.close_accepts, which replays it
 with the model's own `step`) and must satisfy the property oracle.  Nothing depends on wall-clock ordering."""
 import json
 
@@ -26,7 +29,7 @@ MANIFEST = {
                  "of histories recorded from the Go implementation",
 }
 
-HEADER = ("From Coq Require Import List Arith Bool.\nFrom IocVerif Require Import Model.Conc Corr.Check_C14.\n"
+HEADER = ("From Coq Require Import List Arith Bool.\nFrom IocVerif Require Import Model.Conc Model.ConcMulti Corr.Check_C14.\n"
           "Import ListNotations.\n")
 OUTCOME = {"ok": 0, "hang": 1, "stalled": 2, "panic": 3, "runerr": 3}
 N_ZERO_TYPES = 16   # len(zeroTypes) in harness/cmd/c14/zero.go
@@ -142,7 +145,26 @@ def gen_case(rng, cid, maxn):
         fails[rng.randrange(n)] = True
     c = {"id": cid, "n": n, "kinds": kinds, "fails": fails, "shapes": gen_shapes(rng, n),
          "procs": rng.choice([0, 0, 1, 2, 4]), "wdl_ms": rng.choice([3, 8, 15])}
-    return with_mode(rng, c, rng.choice(["", "", "", "", "during", "during", "self"]))
+    return with_mode(rng, c, rng.choice(["", "", "", "", "during", "during", "self", "overlap", "overlap"]))
+
+
+def with_overlap(rng, c):
+    """mode "overlap": K = 2-3 calls of App.Close that overlap.  Nine cases in ten have a gate closer (kind G: blocks until
+    the driver opens the gate of its call), which makes the overlap certain: call k+1 is invoked when every closer has been
+    entered k times and the gate closer of call k is still inside Close().  rel_order: the order in which the driver opens
+    the gates of the calls (and waits for that call to return) - any permutation, so a later call may return first."""
+    n = c["n"]
+    if n > 12:     # K histories of n closers each: keep the acceptor's work small
+        n = rng.randint(1, 12)
+        c = dict(c, n=n, kinds=c["kinds"][:n], fails=c["fails"][:n], shapes=gen_shapes(rng, n))
+    kinds = list(c["kinds"])
+    if n and rng.random() < 0.9:
+        for i in rng.sample(range(n), rng.choice([1, 1, 2]) if n >= 2 else 1):
+            kinds[i] = "G"
+    K = rng.choice([2, 2, 3])
+    order = list(range(1, K + 1))
+    rng.shuffle(order)
+    return dict(c, kinds=kinds, mode="overlap", closes=K, rel_order=order, runner_slot=-1, rel_by=0)
 
 
 def with_mode(rng, c, mode):
@@ -152,6 +174,8 @@ def with_mode(rng, c, mode):
     (a server that serves until it is closed: rel_by = runner_slot + 1), -1 = the runner is a component of its own."""
     if not mode:
         return c
+    if mode == "overlap":
+        return with_overlap(rng, c)
     n = c["n"]
     plain = [i for i, s in enumerate(c["shapes"]) if s == "P"]
     slot = rng.choice(plain) if plain and rng.random() < 0.5 else -1
@@ -192,13 +216,37 @@ MODE_CORPUS = [
 ]
 
 
+# overlapping calls of App.Close: a signal handler and the deferred Close of main at the same time (two calls, the second
+# one returns first / last), three calls, a blocked gate next to closers that fail, closers that share an address
+OVERLAP_CORPUS = [
+    {"n": 2, "kinds": ["G", "F"], "fails": [False, False], "shapes": ["P", "P"], "procs": 0, "wdl_ms": 10,
+     "mode": "overlap", "closes": 2, "rel_order": [1, 2], "runner_slot": -1, "rel_by": 0},
+    {"n": 3, "kinds": ["F", "G", "W"], "fails": [True, False, False], "shapes": ["P", "P", "P"], "procs": 0, "wdl_ms": 10,
+     "mode": "overlap", "closes": 2, "rel_order": [2, 1], "runner_slot": -1, "rel_by": 0},
+    {"n": 4, "kinds": ["A", "G", "W", "G"], "fails": [True, True, False, False], "shapes": ["Z1", "P", "O:3", "I"], "procs": 1,
+     "wdl_ms": 10, "mode": "overlap", "closes": 3, "rel_order": [3, 1, 2], "runner_slot": -1, "rel_by": 0},
+    {"n": 1, "kinds": ["G"], "fails": [True], "shapes": ["Z0"], "procs": 2, "wdl_ms": 5,
+     "mode": "overlap", "closes": 3, "rel_order": [2, 3, 1], "runner_slot": -1, "rel_by": 0},
+    {"n": 0, "kinds": [], "fails": [], "shapes": [], "procs": 0, "wdl_ms": 5,
+     "mode": "overlap", "closes": 2, "rel_order": [1, 2], "runner_slot": -1, "rel_by": 0},
+]
+
+
 def load_corpus():
     """corpus/C14/*.json (minimised past disagreements / canonical cases) run first; falls back to the built-in list"""
     import glob
     import os
     files = sorted(glob.glob(os.path.join(vlib.VERIF, "corpus", "C14", "*.json")))
     cs = [json.load(open(f)) for f in files]
-    return (cs or CORPUS) + MODE_CORPUS
+    return (cs or CORPUS) + MODE_CORPUS + OVERLAP_CORPUS
+
+
+def multi_term(e):
+    """an event of a history of overlapping calls: (call, KInv | KObs o), calls numbered from 0 in Coq"""
+    k = e.get("c", 0) - 1
+    if k < 0:
+        k = 99     # an event without a call: attributed to no call of the case
+    return "(%d, KInv)" % k if e["k"] == "inv" else "(%d, KObs (%s))" % (k, obs_term(e))
 
 
 def obs_term(e):
@@ -224,8 +272,12 @@ def evaluate(ctx, binp, cases, tag):
         by_id[k] = {"case": c, "events": o["events"], "outcome": o["outcome"], "registered": o["registered"],
                     "detail": o["detail"]}
         fails = [i + 1 for i, f in enumerate(c["fails"]) if f]
-        terms.append("mkCase %d %d %s %s %d" % (k, c["n"], vlib.coq_list(str(x) for x in fails),
-                                               vlib.coq_list(obs_term(e) for e in o["events"] or []), oc))
+        if c.get("mode") == "overlap":
+            terms.append("CMulti %d %d %d %s %s %d" % (k, c["closes"], c["n"], vlib.coq_list(str(x) for x in fails),
+                                                      vlib.coq_list(multi_term(e) for e in o["events"] or []), oc))
+            continue
+        terms.append("COne (mkCase %d %d %s %s %d)" % (k, c["n"], vlib.coq_list(str(x) for x in fails),
+                                                      vlib.coq_list(obs_term(e) for e in o["events"] or []), oc))
     out = vlib.coq_eval_sharded(ctx, "cases_c14_" + tag, HEADER, terms,
                                 {"M": "mismatches", "V": "violations", "NT": "count_nontrivial", "NTI": "nontrivial_ids"},
                                 shard=60)
@@ -266,7 +318,7 @@ def run(ctx):
 
     def key(c):
         return vlib.stable_hash([c["n"], c["kinds"], c["fails"], c.get("shapes"), c["procs"], c.get("mode", ""),
-                                 c.get("runner_slot"), c.get("rel_by")])
+                                 c.get("runner_slot"), c.get("rel_by"), c.get("closes"), c.get("rel_order")])
 
     distinct_nt = len({key(by_id[i]["case"]) for i in NTI})
 
@@ -294,6 +346,8 @@ def run(ctx):
         more = [gen_case(ctx.rng, i, 12) for i in range(400)]
         for m in more:
             m["procs"] = ctx.rng.choice([1, 1, 2])
+            if m.get("mode") == "overlap":   # the gates keep the overlapping calls deterministic
+                continue
             if m.get("mode"):   # a hang costs seconds: the widening run keeps to the ordinary sequence
                 m.pop("mode"), m.pop("runner_slot"), m.pop("rel_by")
         b2, _, V2, _, _ = evaluate(ctx, binp, more, "widen")
@@ -301,7 +355,9 @@ def run(ctx):
 
     sizes, kinds, procs, shp = {}, {}, {}, {"P": 0, "Z": 0, "O": 0, "I": 0}
     modes = {"after_run_returned": 0, "during_run_server_closed_by_its_own_close": 0, "during_run_released_by_another_closer": 0,
-             "during_run_released_by_driver_after_close": 0, "by_a_runner_itself": 0, "runner_is_also_a_closer": 0}
+             "during_run_released_by_driver_after_close": 0, "by_a_runner_itself": 0, "runner_is_also_a_closer": 0,
+             "overlapping_calls": 0, "overlapping_calls_2": 0, "overlapping_calls_3": 0, "overlapping_calls_with_a_gate_closer": 0,
+             "overlapping_calls_a_later_call_returns_first": 0, "closer_invocations_by_overlapping_calls": 0}
     shared = {"cases_with_closers_sharing_an_address": 0, "cases_with_two_or_more_zero_size_closers": 0,
               "cases_with_struct_and_first_field": 0, "cases_with_both": 0, "largest_group_at_one_address": 0,
               "failing_closers_sharing_an_address": 0, "blocking_closers_sharing_an_address": 0}
@@ -311,6 +367,12 @@ def run(ctx):
         md = c.get("mode", "")
         if not md:
             modes["after_run_returned"] += 1
+        elif md == "overlap":
+            modes["overlapping_calls"] += 1
+            modes["overlapping_calls_%d" % c["closes"]] = modes.get("overlapping_calls_%d" % c["closes"], 0) + 1
+            modes["overlapping_calls_with_a_gate_closer"] += "G" in c["kinds"]
+            modes["overlapping_calls_a_later_call_returns_first"] += c["rel_order"] != sorted(c["rel_order"])
+            modes["closer_invocations_by_overlapping_calls"] += sum(1 for e in by_id[i]["events"] or [] if e["k"] == "call")
         elif md == "self":
             modes["by_a_runner_itself"] += 1
         elif c["rel_by"] == 0:
@@ -351,7 +413,10 @@ def run(ctx):
                 "kept per type name), O/I=a struct and its first field both registered (one shared address); GOMAXPROCS "
                 "1/2/4/default); Close invoked after Run returned / while Run is still inside callRunners (a runner that has "
                 "started and blocks until a closer's Close is called or the driver releases it after Close returned; the runner "
-                "a component of its own or one of the closers) / by a runner from inside its Run(); non-trivial = at least two closers, at least one failing, and the calls "
+                "a component of its own or one of the closers) / by a runner from inside its Run() / 2-3 times with the calls overlapping (a later call is invoked when every closer has been "
+                "entered once per earlier call and a gate closer of those is still blocked; the gates are opened call by call in a "
+                "generated order; the j-th entry into a closer belongs to call j; non-trivial: a call was invoked while an earlier one "
+                "had not returned); non-trivial = at least two closers, at least one failing, and the calls "
                 "overlapped in the recorded history; distinct = distinct (n, kinds, fails, shapes, procs)",
         "samples": [by_id[i] for i in ids[:2] + ids[-1:]],
         "traces_validated_against_impl": nev,
